@@ -10,9 +10,12 @@ URLS = ["http://t.example/announce", "udp://tracker.example:6969", "https://a.b/
         "http://x.y/a b", "http://ü.example/é", "http://h/%41+%2B#frag", "wss://t/~u=1",
         "http://tr/𝄞", "ftp://ftp.example.site/content", "http://w/one",
         # URLs a "cleaning" helper would re-spell (capitalised scheme, bare ? or #, a tab)
-        "HTTP://Tracker.Example/Announce", "http://t.example/a?", "http://t.example/a#", "http://t.example/a\tb"]
+        "HTTP://Tracker.Example/Announce", "http://t.example/a?", "http://t.example/a#", "http://t.example/a\tb",
+        # a directory mirror (BEP 19 form) and a URL with commas
+        "http://mirror.example/pub/", "http://t.example/x?parts=1,2,3"]
 WORDS = ["hello", "a comment with spaces", "x=y&z", "100%", "émoji 😀", "#tag", "plus+plus",
-         "src", "PTP", "tracker-x", "~", "q?", " padded ", "  ", "tail ", "\tt"]
+         "src", "PTP", "tracker-x", "~", "q?", " padded ", "  ", "tail ", "\tt",
+         "@alexpdev thanks", "@home", "@"]
 
 
 def options(rng, none_p=0.35):
